@@ -69,7 +69,7 @@ def h_single_attempt(E, msg_flag):
     return str(r['ok'])
 
 
-def h_list(E, kind, attempt):
+def h_list(E, kind, attempt, debug=False):
     import mitxgraders.baseclasses as B
     from mitxgraders import ListGrader, SingleListGrader
     n = 2
@@ -81,6 +81,8 @@ def h_list(E, kind, attempt):
     if attempt:
         c = E.choice('credit', [0.5, 0, 1])
         kw = dict(attempt_based_credit=lambda k: c)
+    if debug:
+        kw['debug'] = True
     call_kw = dict(attempt=2) if attempt else {}
     with shadow(B, float=sym_float):
         if kind in ('slg', 'slg-surplus', 'slg-short'):
@@ -103,7 +105,10 @@ def h_list(E, kind, attempt):
                 _entry_ok(E, ent)
             if kind != 'list-of-slg':
                 E.check('entries-in-input-order', [ent['msg'].split('/')[-1] for ent in r['input_list']] == stus)
-    _no_leak(E, _result_texts(r))
+    if debug:
+        E.check('debug-log-present-when-debug-on', 'MITx Grading Library Version' in (r.get('overall_message', '') + r.get('msg', '')))
+    else:
+        _no_leak(E, _result_texts(r))
     return 'ok'
 
 
@@ -318,6 +323,8 @@ def harnesses(tier):
     for kind in ('slg', 'slg-surplus', 'slg-short', 'list-ordered', 'list-unordered', 'list-of-slg'):
         for att in (False, True):
             add(h_list, 'list', dict(kind=kind, attempt=att), '2 entries, credits in [0,1]')
+    for kind in ('slg', 'list-ordered', 'list-unordered', 'list-of-slg'):
+        add(h_list, 'list', dict(kind=kind, attempt=True, debug=True), '2 entries, credits in [0,1], debug log on')
     for cls in ('StringGrader', 'FormulaGrader'):
         for pinned in ('absent', 'computed', True, False, 'partial'):
             add(h_pinned_ok, 'pinned_ok', dict(cls=cls, pinned=pinned), 'answer credit any real in [0,1]')
